@@ -6,7 +6,6 @@ package main
 import (
 	"encoding/json"
 	"fmt"
-	"sort"
 	"strconv"
 	"strings"
 
@@ -73,14 +72,33 @@ func selfTest() error {
 
 type keysIn struct {
 	Partitions int     `json:"partitions"`
-	Ops        [][]any `json:"ops"`  // ["ops", mode, lists, [[op, [names]]...]]
-	Rows       [][]any `json:"rows"` // [mode, prefix, lists, ch, class, [bad ops], [bad trips], [[name, shape]...]]
+	Ops        [][]any `json:"ops"`  // ["ops", mode, lists, [[name, [[COMMAND, [keys], channel]...]]...]]
+	Rows       [][]any `json:"rows"` // [mode, prefix, lists, ch, class, [indices of bad invocations], [bad trips], [[name, shape]...]]
 	Capture    bool    `json:"capture"`
+	// channels of at most this length run EVERY invocation variant for real; longer ones the base set
+	FullVariantsMaxLen int `json:"full_variants_max_len"`
 }
 
-type opDef struct {
-	name  string
-	names []string
+// one command of an invocation: KEYS by position (builder names, "" = empty key) and the channel's builder name
+type cmdDef struct {
+	cmd  string
+	keys []string
+	ch   string
+}
+
+// invDef is one invocation of the spec: "<engine>.<Operation>[:flags]" and the commands it sends
+type invDef struct {
+	name string
+	cmds []cmdDef
+}
+
+// opSig names an invocation in a signature: <Operation>:<variant>
+func (d invDef) opSig() string {
+	op, variant, _ := strings.Cut(d.name, ":")
+	if variant == "" {
+		variant = "-"
+	}
+	return "op:" + op + ":" + variant
 }
 
 func modeCfg(mode, prefix string, lists bool, parts int) centrifuge.VerifKeyConfig {
@@ -113,16 +131,21 @@ func keysMode(in json.RawMessage, res *vh.Result) error {
 	if err := json.Unmarshal(in, &inp); err != nil {
 		return err
 	}
-	ops := map[string][]opDef{}
+	ops := map[string][]invDef{}
 	for _, o := range inp.Ops {
 		key := vh.Str(o[1]) + "|" + fmt.Sprint(vh.Bool(o[2]))
 		for _, d := range vh.List(o[3]) {
 			dd := vh.List(d)
-			var names []string
-			for _, n := range vh.List(dd[1]) {
-				names = append(names, vh.Str(n))
+			inv := invDef{name: vh.Str(dd[0])}
+			for _, c := range vh.List(dd[1]) {
+				cc := vh.List(c)
+				cd := cmdDef{cmd: vh.Str(cc[0]), ch: vh.Str(cc[2])}
+				for _, n := range vh.List(cc[1]) {
+					cd.keys = append(cd.keys, vh.Str(n))
+				}
+				inv.cmds = append(inv.cmds, cd)
 			}
-			ops[key] = append(ops[key], opDef{vh.Str(dd[0]), names})
+			ops[key] = append(ops[key], inv)
 		}
 	}
 	builders := map[string]*centrifuge.VerifKeys{}
@@ -130,9 +153,10 @@ func keysMode(in json.RawMessage, res *vh.Result) error {
 	specBadRealEqual := 0
 	for _, r := range inp.Rows {
 		mode, prefix, lists, ch, class := vh.Str(r[0]), vh.Str(r[1]), vh.Bool(r[2]), vh.Str(r[3]), vh.Str(r[4])
-		var specBad, specTrips []string
+		specBad := map[int]bool{} // indices (1-based, into the invocation list) the spec expects to fail
+		var specTrips []string
 		for _, b := range vh.List(r[5]) {
-			specBad = append(specBad, vh.Str(b))
+			specBad[vh.Int(b)] = true
 		}
 		for _, b := range vh.List(r[6]) {
 			specTrips = append(specTrips, vh.Str(b))
@@ -228,32 +252,38 @@ func keysMode(in json.RawMessage, res *vh.Result) error {
 			}
 		}
 
-		// 3. per operation: all keys in one slot (cluster modes only)
+		// 3. per invocation and command: all KEYS (by the builders) and the channel in one slot (cluster modes)
+		invs := ops[mode+"|"+fmt.Sprint(lists)]
 		if mode != "plain" {
-			for _, od := range ops[mode+"|"+fmt.Sprint(lists)] {
-				slots := map[int][]string{}
-				var parts []string
-				for _, n := range od.names {
-					k := real[n]
-					slots[slotOf(k)] = append(slots[slotOf(k)], n)
-					parts = append(parts, fmt.Sprintf("%s=%q->%d", strings.TrimPrefix(strings.TrimPrefix(strings.TrimPrefix(n, "broker."), "presence."), "map."), k, slotOf(k)))
-				}
-				sort.Strings(parts)
-				inSpec := contains(specBad, od.name)
-				if len(slots) > 1 {
-					// signature = input class of the spec; an operation failing outside the spec's classes
-					// carries its own name so that no known-finding pattern can swallow it
-					sig := mode + ":" + class
-					if !inSpec {
-						sig = mode + ":" + od.name + ":UNEXPECTED(" + class + ")"
+			for j, inv := range invs {
+				for _, cd := range inv.cmds {
+					slots := map[int]bool{}
+					var parts []string
+					for i, n := range cd.keys {
+						k := real[n] // "" -> ""
+						slots[slotOf(k)] = true
+						parts = append(parts, fmt.Sprintf("KEYS[%d]=%q->%d", i+1, k, slotOf(k)))
 					}
-					if od.name == "map.cleanup" && !inSpec && real["map.cleanupScanKey"] != real["map.cleanupRegistrationKey"] {
-						continue // reported above as registration-key-not-scanned
+					if cd.ch != "" {
+						slots[slotOf(real[cd.ch])] = true
+						parts = append(parts, fmt.Sprintf("channel=%q->%d", real[cd.ch], slotOf(real[cd.ch])))
 					}
-					res.Violate("C34", sig,
-						fmt.Sprintf("%s (class %s): operation %s touches keys in %d different cluster slots: %s", desc, class, od.name, len(slots), strings.Join(parts, " ")), input)
-				} else if inSpec {
-					specBadRealEqual++
+					inSpec := specBad[j+1]
+					if len(slots) > 1 {
+						// signature = input class of the spec; an invocation failing outside the spec's classes
+						// carries its own name so that no known-finding pattern can swallow it
+						sig := mode + ":" + class
+						if !inSpec {
+							sig = mode + ":" + inv.opSig() + ":UNEXPECTED(" + class + ")"
+						}
+						if strings.HasPrefix(inv.name, "map.cleanupBatchRemove") && !inSpec && real["map.cleanupScanKey"] != real["map.cleanupRegistrationKey"] {
+							continue // reported above as registration-key-not-scanned
+						}
+						res.Violate("C34", sig,
+							fmt.Sprintf("%s (class %s): %s of %s touches %d different cluster slots: %s", desc, class, cd.cmd, inv.name, len(slots), strings.Join(parts, " ")), input)
+					} else if inSpec && len(inv.cmds) == 1 {
+						specBadRealEqual++
+					}
 				}
 			}
 		}
@@ -280,7 +310,7 @@ func keysMode(in json.RawMessage, res *vh.Result) error {
 		// 5. the real operations against the recording client: their KEYS (+ the channel argument) are
 		//    the op's key set of the spec, and rueidis' cluster builders do not panic on them
 		if inp.Capture {
-			captureRow(res, kb, mode, lists, ch, class, desc, real, ops[mode+"|"+fmt.Sprint(lists)], input)
+			captureRow(res, kb, mode, ch, class, desc, real, invs, specBad, len(ch) <= inp.FullVariantsMaxLen, input)
 		}
 
 		if mode != "plain" && strings.ContainsAny(ch, "{}") {
@@ -301,99 +331,176 @@ func sample(l []string, n int) []string {
 	return l
 }
 
-// captured op name -> spec op name (the spec merges ops with identical key sets)
-var capOp = map[string]string{
-	"broker.publish.history": "broker.publish.history", "broker.publish.idempotent": "broker.publish.idempotent",
-	"broker.history": "broker.history", "presence.add": "presence.add", "presence.remove": "presence.add",
-	"presence.stats": "presence.add", "presence.get": "presence.get", "map.publish": "map.publish", "map.remove": "map.publish",
-	"map.read.state": "map.read.ordered", "map.read.stream": "map.read.stream", "map.cleanup.batchRemove": "map.cleanup",
+// baseInv: the invocations every channel runs for real (one per script); the other variants differ
+// only in which KEYS positions are unused, which does not depend on the channel name.
+func baseInv(name string) bool {
+	switch name {
+	case "broker.Publish:history,idem", "broker.Publish:idem", "broker.Publish", "broker.History", "broker.RemoveHistory",
+		"presence.Add", "presence.Remove", "presence.Get", "presence.Stats",
+		"map.Publish:recoverable,keyed,idem", "map.Publish:ephemeral,keyed", "map.Remove:recoverable,idem", "map.Remove:ephemeral",
+		"map.ReadState:recoverable", "map.ReadState:recoverable,ordered", "map.ReadStream:recoverable", "map.Clear:recoverable",
+		"map.cleanupBatchRemove:recoverable", "map.cleanupFind:recoverable":
+		return true
+	}
+	return false
 }
 
-func captureRow(res *vh.Result, kb *centrifuge.VerifKeys, mode string, lists bool, ch, class, desc string, real map[string]string, ops []opDef, input any) {
-	for _, clusterSlots := range []bool{false, true} {
-		if clusterSlots && mode == "plain" {
+// keyArgs splits a recorded command into its key arguments and the PUB/SUB channel it names.
+// ok=false: a command this harness does not know how to read.
+func keyArgs(cmd []string, channels map[string]bool) (keys []string, channel string, ok bool) {
+	if len(cmd) == 0 {
+		return nil, "", false
+	}
+	switch cmd[0] {
+	case "EVALSHA", "EVAL":
+		if len(cmd) < 3 {
+			return nil, "", false
+		}
+		nk, err := strconv.Atoi(cmd[2])
+		if err != nil || nk < 0 || len(cmd) < 3+nk {
+			return nil, "", false
+		}
+		keys = append([]string{}, cmd[3:3+nk]...)
+		for _, a := range cmd[3+nk:] { // the channel travels in ARGV, the script (S)PUBLISHes on it
+			if a != "" && channels[a] {
+				channel = a
+			}
+		}
+		return keys, channel, true
+	case "PUBLISH", "SPUBLISH":
+		if len(cmd) < 2 {
+			return nil, "", false
+		}
+		return nil, cmd[1], true
+	case "DEL":
+		return append([]string{}, cmd[1:]...), "", true
+	case "HGET", "HMGET", "ZREM", "ZRANGEBYSCORE", "ZRANGE", "XRANGE", "XREVRANGE", "HGETALL", "ZADD", "EXPIRE":
+		if len(cmd) < 2 {
+			return nil, "", false
+		}
+		return []string{cmd[1]}, "", true
+	}
+	return nil, "", false
+}
+
+func captureRow(res *vh.Result, kb *centrifuge.VerifKeys, mode, ch, class, desc string, real map[string]string, invs []invDef, specBad map[int]bool, full bool, input any) {
+	channels := map[string]bool{real["broker.messageChannelID"]: true}
+	if m, ok := real["map.messageChannelID"]; ok {
+		channels[m] = true
+	}
+	scanMismatch := real["map.cleanupScanKey"] != real["map.cleanupRegistrationKey"]
+	for j, inv := range invs {
+		if !full && !baseInv(inv.name) {
 			continue
 		}
-		scanMismatch := real["map.cleanupScanKey"] != real["map.cleanupRegistrationKey"]
-		for _, c := range kb.CaptureOps(ch, "i", real["map.cleanupScanKey"], clusterSlots) {
-			res.Count("captured_ops", 1)
-			specName := capOp[c.Op]
-			if specName == "map.cleanup" && scanMismatch {
-				// already reported as registration-key-not-scanned; the worker's call would mix slots
-				if c.Panic != "" {
-					res.Count("rueidis_cross_slot_panics", 1)
+		if strings.HasPrefix(inv.name, "map.cleanupBatchRemove") && scanMismatch {
+			continue // already reported as registration-key-not-scanned; the worker's call would mix slots
+		}
+		inSpec := specBad[j+1]
+		for _, clusterSlots := range []bool{false, true} {
+			if clusterSlots && (mode == "plain" || !full) {
+				continue // rueidis' cluster-builder guard is exercised on the short channels only (it is a consequence, not the verdict)
+			}
+			c, ok := kb.Invoke(inv.name, ch, "i", real["map.cleanupScanKey"], clusterSlots)
+			if !ok {
+				if !clusterSlots && inv.name != "broker.subscribe.sharded" {
+					res.Drift("C34", fmt.Sprintf("%s: invocation %s of the spec cannot be executed by the shim", desc, inv.name), input)
 				}
 				continue
 			}
-			var od *opDef
-			for i := range ops {
-				if ops[i].name == specName {
-					od = &ops[i]
-				}
-			}
-			if od == nil {
-				res.Drift("C34", fmt.Sprintf("%s: captured operation %s has no counterpart in the spec", desc, c.Op), input)
-				continue
-			}
-			allowed := map[string]string{}
-			for _, n := range od.names {
-				allowed[real[n]] = n
-			}
+			res.Count("invocations_executed", 1)
 			if c.Panic != "" {
 				if clusterSlots && strings.Contains(c.Panic, "different key slots") {
-					// rueidis' own guard fired: consequence of keys in different slots (reported by step 3)
+					// rueidis' own guard fired: consequence of keys in different slots (reported by the standalone pass)
 					res.Count("rueidis_cross_slot_panics", 1)
-					res.Extra["rueidis_cross_slot_panic_example"] = fmt.Sprintf("%s: %s panics inside rueidis' cluster command builder: %s", desc, c.Op, c.Panic)
-					if class == "sound" {
-						res.Violate("C34", mode+":"+specName+":UNEXPECTED(rueidis-cross-slot-panic)", fmt.Sprintf("%s: %s panics in rueidis: %s", desc, c.Op, c.Panic), input)
+					if class != "sound" || !inSpec {
+						res.Extra["rueidis_cross_slot_panic_example"] = fmt.Sprintf("%s: %s panics inside rueidis' cluster command builder: %s", desc, inv.name, c.Panic)
+					}
+					if !inSpec {
+						res.Violate("C34", mode+":"+inv.opSig()+":rueidis-cross-slot-panic", fmt.Sprintf("%s (class %s): %s panics in rueidis' cluster command builder: %s", desc, class, inv.name, c.Panic), input)
 					}
 				} else {
-					res.Drift("C34", fmt.Sprintf("%s: operation %s panicked against the recording client: %s", desc, c.Op, c.Panic), input)
+					res.Drift("C34", fmt.Sprintf("%s: %s panicked against the recording client: %s", desc, inv.name, c.Panic), input)
 				}
 				continue
 			}
 			if clusterSlots {
-				continue // the command lists are identical to the standalone pass; only the guard matters
+				continue // the command list is that of the standalone pass; only rueidis' guard matters here
 			}
-			seen := 0
-			for _, cmd := range c.Cmds {
-				if len(cmd) < 3 || (cmd[0] != "EVALSHA" && cmd[0] != "EVAL") {
+			if len(c.Cmds) != len(inv.cmds) {
+				res.Drift("C34", fmt.Sprintf("%s: %s sent %d commands %v, the spec lists %d", desc, inv.name, len(c.Cmds), c.Cmds, len(inv.cmds)), input)
+			}
+			for x, cmd := range c.Cmds {
+				keys, channel, ok := keyArgs(cmd, channels)
+				if !ok {
+					res.Drift("C34", fmt.Sprintf("%s: %s sent a command the harness cannot read: %v", desc, inv.name, cmd), input)
 					continue
 				}
-				nk, err := strconv.Atoi(cmd[2])
-				if err != nil || len(cmd) < 3+nk {
-					res.Drift("C34", fmt.Sprintf("%s: %s built an unparsable script call %v", desc, c.Op, cmd), input)
-					continue
+				// (a) the property, on what was really sent: every key (an empty key is a key) and the channel in one slot
+				type ent struct {
+					what string
+					val  string
 				}
-				seen++
-				keys := append([]string{}, cmd[3:3+nk]...)
-				for _, a := range cmd[3+nk:] { // the PUB/SUB channel travels as an argument
-					if a != "" && (a == real["broker.messageChannelID"] || a == real["map.messageChannelID"]) {
-						keys = append(keys, a)
+				var ents []ent
+				for i, k := range keys {
+					ents = append(ents, ent{fmt.Sprintf("key-%d", i+1), k})
+				}
+				if channel != "" {
+					ents = append(ents, ent{"channel", channel})
+				}
+				count := map[int]int{}
+				for _, e := range ents {
+					count[slotOf(e.val)]++
+				}
+				if len(count) > 1 && mode != "plain" {
+					ref, best := -1, 0
+					for _, e := range ents { // reference slot: the most frequent one, first wins
+						if s := slotOf(e.val); count[s] > best {
+							ref, best = s, count[s]
+						}
 					}
-				}
-				for _, k := range keys {
-					if k == "" && mode == "plain" {
-						continue // unused KEYS stay empty without a cluster (the ":nil:" key replaces them only in cluster mode)
+					odd := ""
+					var parts []string
+					for _, e := range ents {
+						if slotOf(e.val) != ref && odd == "" {
+							odd = e.what
+						}
+						parts = append(parts, fmt.Sprintf("%s=%q->%d", e.what, e.val, slotOf(e.val)))
 					}
-					if _, ok := allowed[k]; !ok {
-						res.Drift("C34", fmt.Sprintf("%s: %s passes key %q which is not in the spec's key set of %s %v", desc, c.Op, k, specName, od.names), input)
-					}
-				}
-				slots := map[int]bool{}
-				for _, k := range keys {
-					slots[slotOf(k)] = true
-				}
-				if len(slots) > 1 && mode != "plain" {
 					sig := mode + ":" + class
-					if class == "sound" {
-						sig = mode + ":" + specName + ":UNEXPECTED(sound)"
+					if !inSpec {
+						sig = fmt.Sprintf("%s:%s:%s-other-slot", mode, inv.opSig(), odd)
 					}
-					res.Violate("C34", sig, fmt.Sprintf("%s (class %s): the real %s call passes keys of %d different slots: %q", desc, class, c.Op, len(slots), keys), input)
+					res.Violate("C34", sig, fmt.Sprintf("%s (class %s): the real %s sends %s with keys of %d different cluster slots: %s", desc, class, inv.name, cmd[0], len(count), strings.Join(parts, " ")), input)
 				}
-			}
-			if seen == 0 {
-				res.Drift("C34", fmt.Sprintf("%s: operation %s built no script call (commands: %v)", desc, c.Op, c.Cmds), input)
+				// (b) the spec's command list is the code's (drift otherwise: the spec must follow the code)
+				if x >= len(inv.cmds) {
+					continue
+				}
+				cd := inv.cmds[x]
+				name := cmd[0]
+				if name == "SPUBLISH" {
+					name = "PUBLISH"
+				}
+				if name == "EVAL" {
+					name = "EVALSHA"
+				}
+				if name != cd.cmd {
+					res.Drift("C34", fmt.Sprintf("%s: command %d of %s is %s, the spec says %s", desc, x+1, inv.name, cmd[0], cd.cmd), input)
+					continue
+				}
+				if len(keys) != len(cd.keys) {
+					res.Drift("C34", fmt.Sprintf("%s: %s of %s has %d keys %q, the spec lists %d %v", desc, cmd[0], inv.name, len(keys), keys, len(cd.keys), cd.keys), input)
+					continue
+				}
+				for i, k := range keys {
+					if want := real[cd.keys[i]]; k != want {
+						res.Drift("C34", fmt.Sprintf("%s: KEYS[%d] of %s (%s) is %q, the spec says %s = %q", desc, i+1, inv.name, cmd[0], k, cd.keys[i], want), input)
+					}
+				}
+				if want := real[cd.ch]; channel != want {
+					res.Drift("C34", fmt.Sprintf("%s: %s of %s publishes to %q, the spec says %q (%s)", desc, cmd[0], inv.name, channel, want, cd.ch), input)
+				}
 			}
 		}
 	}
